@@ -60,8 +60,10 @@ def projects(draw: Any) -> Dict[str, Any]:
     init: List[str] = ['"""Package, see %s."""' % x('pkg.base.Base')]
     files = {'pkg/__init__.py': '', 'pkg/base.py': '\n'.join(base) + '\n', 'pkg/sub.py': '\n'.join(sub) + '\n'}
     if f['reexport']:
-        files['pkg/_impl.py'] = ('"""impl"""\nfrom .base import Base\nclass Impl(Base):\n    """Re-exported, see %s."""\n    def work(self):\n        """see %s"""\n'
-                                 'def util():\n    """util"""\n' % (x('Base'), x('Impl')))
+        # the re-exported function has annotations, a default and a docstring that name things which stay behind in _impl
+        files['pkg/_impl.py'] = ('"""impl"""\nfrom typing import TypeVar, Union\nfrom .base import Base\nNum = Union[int, float]\n"""a type alias"""\nT = TypeVar("T")\nDEFAULT = 1\n"""a constant"""\n'
+                                 'def helper2():\n    """stays in _impl"""\nclass Impl(Base):\n    """Re-exported, see %s."""\n    def work(self):\n        """see %s"""\n'
+                                 'def util(a: "Num" = DEFAULT, b: T = None, c: "Base" = None) -> "Num":\n    """util, see %s and %s"""\n' % (x('Base'), x('Impl'), x('helper2'), x('Num')))
         init += ['from ._impl import Impl, util', "__all__ = ['Impl', 'util']"]
         files['pkg/user.py'] = 'from pkg._impl import Impl\nfrom pkg import util\nclass User(Impl):\n    """see %s and %s"""\n' % (x('pkg._impl.Impl'), x('pkg.Impl'))
     if f['deep']:
